@@ -355,6 +355,16 @@ def describe(c):
                 sweep_seq=c["seq"], nll=str(c["nll"]), table={k: str(v) for k, v in c["table"].items()}, dflt=str(c["dflt"]))
 
 
+def undescribe(d):
+    def num(v):
+        return v if v in SPECIAL else Fr(v)
+    return dict(id="replay:%s" % d.get("id"), n=d["n"], maxp=d["maxp"], theta=[Fr(v) for v in d["theta"]],
+                I=[num(d["H0"][i][i]) if num(d["H0"][i][i]) not in SPECIAL else Fr(1) for i in range(d["n"])],
+                H0=[[num(v) for v in r] for r in d["H0"]], mats=[[[num(v) for v in r] for r in m] for m in d["sweep_mats"]],
+                seq=d["sweep_seq"], nll=num(d["nll"]), table={k: num(v) for k, v in d["table"].items()}, dflt=num(d["dflt"]),
+                tags=["replay"] * d["n"])
+
+
 def compare_len(o, enc):
     """float code length of the implementation vs the value of the model's structure"""
     ref = eval_struct(enc)
@@ -371,6 +381,9 @@ def correspondence(ctx):
     rng = esrv.rng(ctx.seed, "C07-cases")
     N = 600 if ctx.quick else 10000
     cases = list(CORPUS) + [gen_case(rng, i) for i in range(N)]
+    rp = getattr(ctx, "replay", None)
+    if rp and isinstance(rp.get("input"), dict) and "theta" in rp["input"]:
+        cases.insert(0, undescribe(rp["input"]))       # --replay file: that case runs first
     results = run_cases(ctx, cases, "table")
     ctx.c07 = results
     nbad = 0
